@@ -119,3 +119,41 @@ func Harness_C03_NamespaceLimit() {
 	verif.Assert(err != nil, "over-long-namespace-rejected-before-any-write")
 	verif.Reached()
 }
+
+// Harness_C05_GroupPrefixLargeCounts: for key-group counts above 256 (two-byte groups) and 64
+// concrete keys hashed by the real murmur function, everything persisted for a key - state
+// entries, the scan prefix, timers - carries the key's group in its first two bytes and is owned
+// by exactly the operator the key is routed to. (The symbolic harness C05_RouteVsOwn covers
+// arbitrary keys under an uninterpreted hash; its witnesses for groups >= 256 do not replay
+// natively because the real hash differs, so this harness supplies replayable ones.)
+func Harness_C05_GroupPrefixLargeCounts() {
+	count := []int{257, 1000, 4096, 65535}[verif.Choose("count", 4)]
+	n := verif.IntRange("n", 1, 3)
+	ks := partitioning.NewKeySpace(count, n)
+	st := NewKeyedStateStore(nil, ks)
+	ts := &TimerStore{keySpace: ks}
+	high := 0
+	for i := 0; i < 64; i++ {
+		key := []byte{'k', byte('0' + i/8), byte('0' + i%8)}
+		kg := ks.KeyGroup(key)
+		if int(kg) >= 256 {
+			high++
+		}
+		dbKey := st.encodeDBKey(key, "n", []byte("d"))
+		subj := st.encodeSubjectKey(key)
+		_, tKey := ts.encodeTimerKey(key, time.Unix(int64(i), 0))
+		verif.Assert(dbKey[0] == byte(uint16(kg)>>8) && dbKey[1] == byte(kg), "state-key-prefixed-by-group")
+		verif.Assert(subj[0] == dbKey[0] && subj[1] == dbKey[1], "scan-prefix-prefixed-by-group")
+		verif.Assert(tKey[0] == byte(uint16(kg)>>8) && tKey[1] == byte(kg), "timer-key-prefixed-by-group")
+		route := ks.RangeIndex(key)
+		for j, r := range ks.KeyGroupRanges() {
+			part := newOperatorPartition(r, nil)
+			verif.Assert(part.OwnsKey(dbKey) == (j == route), "state-owned-exactly-by-routed-operator")
+			verif.Assert(part.OwnsKey(tKey) == (j == route), "timer-owned-exactly-by-routed-operator")
+		}
+	}
+	if count >= 1000 {
+		verif.Assert(high > 0, "some-key-falls-into-a-two-byte-group")
+	}
+	verif.Reached()
+}
